@@ -9,7 +9,7 @@ TraitOrder == <<"AsRef", "Deref", "Borrow", "Display", "From", "TryFrom", "FromS
 AsSeq(D) == SelectSeq(TraitOrder, LAMBDA t : t \in D)
 AllT == {TraitOrder[i] : i \in DOMAIN TraitOrder}
 TraitSets == {{}} \cup {{t} : t \in AllT} \cup {{a, b} : a \in AllT, b \in AllT} \cup {AllT \ {"From"}, AllT \ {"TryFrom"}}
-             \cup {{"AsRef", "Deref", "Borrow", "Into", "FromStr", "Display"}}
+             \cup {{"AsRef", "Deref", "Borrow", "Into", "FromStr", "Display"}, {"AsRef", "Deref", "Borrow", "Into"}}
 
 Cfgs == {[fam |-> fam, type |-> "Nt", validated |-> v, traits |-> D, trait_seq |-> AsSeq(D), new_unchecked |-> nu,
           feature_new_unchecked |-> fe, vis |-> vis, const_fn |-> cf] :
@@ -48,7 +48,9 @@ Needs(a, c, items) ==
     [] a \in {"deref_assign", "deref_mut", "mem_replace", "iter_mut", "push_through_deref",
                "index_mut", "string_push_through_deref", "op_assign_through_deref", "swap_through_deref"} ->
          \E i \in DOMAIN items : items[i].kind = "impl" /\ items[i].trait_name = "DerefMut"
-    [] a \in {"as_mut", "as_mut_method"} -> \E i \in DOMAIN items : items[i].kind = "impl" /\ items[i].trait_name = "AsMut"
+    [] a = "as_mut" -> \E i \in DOMAIN items : items[i].kind = "impl" /\ items[i].trait_name = "AsMut"
+    \* method-call syntax auto-derefs: `t.as_mut()` also resolves to the inner type's AsMut when DerefMut is offered
+    [] a = "as_mut_method" -> \E i \in DOMAIN items : items[i].kind = "impl" /\ items[i].trait_name \in {"AsMut", "DerefMut"}
     \* `(&mut t).into()` needs an impl of From / Into that hands out `&mut Inner`
     [] a = "into_mut_ref" -> \E i \in DOMAIN items : items[i].kind = "impl" /\ items[i].trait_name \in {"From", "Into"} /\ items[i].for_mut_ref
     [] a = "borrow_mut" -> \E i \in DOMAIN items : items[i].kind = "impl" /\ items[i].trait_name = "BorrowMut"
@@ -81,9 +83,11 @@ Applicable(a, c) ==
     [] OTHER -> TRUE
 
 \* base configurations the attacks are tried on
+\* the catalogue inner type of the `any` family (Vec<i32>) has no FromStr / Display: it gets the view traits only
 BaseTraits == {{"AsRef", "Deref", "Borrow", "Into", "FromStr", "Display"}, {}}
-BaseCfgs == {c \in Cfgs : c.traits \in BaseTraits /\ (c.new_unchecked => c.feature_new_unchecked) /\ c.feature_new_unchecked
-                          /\ (c.fam = "any" => "FromStr" \notin c.traits) /\ c.vis \in {"", "pub(crate)"}}
+AnyBaseTraits == {{"AsRef", "Deref", "Borrow", "Into"}, {}}
+BaseCfgs == {c \in Cfgs : (c.new_unchecked => c.feature_new_unchecked) /\ c.feature_new_unchecked
+                          /\ (IF c.fam = "any" THEN c.traits \in AnyBaseTraits ELSE c.traits \in BaseTraits) /\ c.vis \in {"", "pub(crate)"}}
 
 \* the design says every applicable attack fails: no emitted item offers the capability
 AttacksFail == (emitted # <<>> /\ cfg \in BaseCfgs) => \A a \in Attacks : Applicable(a, cfg) => ~Needs(a, cfg, emitted)
